@@ -155,6 +155,9 @@ func runC12(c *Ctx) {
 				c.R.Report(&ev.Fail{Scenario: "schedules", Case: map[string]any{"bin": j.bin, "driver": j.name, "schedule": rep.Schedule}, API: j.name, Shape: shape, What: name + ": " + trunc(rep.Failure, 700), Extra: extra})
 			}
 			bound := fmt.Sprintf("all schedules with <= %d deviations (preemptions / non-default pool answers); ", rep.Bound)
+			if rep.Bound < 0 {
+				bound = "no deviation bound completed (the deviation-free schedules alone exceed the cap); "
+			}
 			if !rep.Complete {
 				bound += fmt.Sprintf("bound %d capped at %d executions in total", rep.Bound+1, rep.Executions)
 			} else {
